@@ -151,19 +151,10 @@ theorem attachResult_bufs (h : Heap) (x : Tens) (parent : Option Nat) : (attachR
   · split <;> rfl
   · rfl
 
-theorem recordOp_bufs (h : Heap) (kind : Kind) (vars us : List Nat) (c : Bool) (constant : Option Bool)
-    (wm : Option (Shape × List Bool)) (outArr : Arr) (parent : Option Nat) :
-    (recordOp h kind vars us c constant wm outArr parent).1.bufs = h.bufs := by
-  unfold recordOp
+theorem prepInputs_bufs (h : Heap) (us : List Nat) (parent : Option Nat) :
+    (prepInputs h us parent).1.bufs = h.bufs := by
+  unfold prepInputs
   simp only
-  rw [attachResult_bufs]
-  have hfold1 : ∀ (vs : List Nat) (f : Nat) (h0 : Heap),
-      (vs.foldl (fun h v => h.modT v fun t => { t with ops := f :: t.ops }) h0).bufs = h0.bufs := by
-    intro vs f h0
-    exact foldl_modT_bufs vs id (fun _ t => { t with ops := f :: t.ops }) h0
-  rw [hfold1]
-  simp only [Heap.setOp, bufs_fresh]
-  -- the input fix-up fold
   have hfold2 : ∀ (b : Option Nat) (vs : List Nat) (h0 : Heap),
       (vs.foldl (fun h v =>
         let tv := h.t v
@@ -181,6 +172,20 @@ theorem recordOp_bufs (h : Heap) (kind : Kind) (vars us : List Nat) (c : Bool) (
   · rw [hfold2]
   · rw [hfold2]
     split <;> rfl
+
+theorem recordOp_bufs (h : Heap) (kind : Kind) (vars us : List Nat) (c : Bool) (constant : Option Bool)
+    (wm : Option (Shape × List Bool)) (outArr : Arr) (parent : Option Nat) :
+    (recordOp h kind vars us c constant wm outArr parent).1.bufs = h.bufs := by
+  unfold recordOp
+  simp only
+  rw [attachResult_bufs]
+  have hfold1 : ∀ (vs : List Nat) (f : Nat) (h0 : Heap),
+      (vs.foldl (fun h v => h.modT v fun t => { t with ops := f :: t.ops }) h0).bufs = h0.bufs := by
+    intro vs f h0
+    exact foldl_modT_bufs vs id (fun _ t => { t with ops := f :: t.ops }) h0
+  rw [hfold1]
+  simp only [Heap.setOp, bufs_fresh]
+  exact prepInputs_bufs h us parent
 
 /-- **op_frames_input_data.**  A (non-in-place) MyGrad operation leaves every existing array buffer —
 the data of its inputs, of every other tensor, and the caller's arrays — unchanged: the only buffers
